@@ -23,6 +23,7 @@ type carriedUse struct {
 // (3) are read inside the loop by something other than the merge phis themselves.
 func carriedAcrossIterations(fn *ssa.Function) []carriedUse {
 	var out []carriedUse
+	out = append(out, lateClosureCaptures(fn)...)
 	for _, h := range fn.Blocks {
 		var back []int
 		for i, p := range h.Preds {
@@ -171,7 +172,11 @@ var _ = core.FnName
 func DumpCarried(p *core.Program, emit func(string)) {
 	for _, fn := range p.OwnFuncs() {
 		for _, cu := range carriedAcrossIterations(fn) {
-			emit(core.FnName(fn) + " var=" + cu.Name + " use@" + p.Pos(cu.Use.Pos()) + " phi@" + p.Pos(cu.Phi.Pos()))
+			ph := ""
+			if cu.Phi != nil {
+				ph = " phi@" + p.Pos(cu.Phi.Pos())
+			}
+			emit(core.FnName(fn) + " var=" + cu.Name + " use@" + p.Pos(cu.Use.Pos()) + ph)
 		}
 	}
 }
@@ -221,6 +226,61 @@ func handlerFns(p *core.Program) []*ssa.Function {
 		nm := fn.Name()
 		if strings.HasPrefix(nm, "handle") || strings.HasPrefix(nm, "serve") || nm == "ServeReport" {
 			out = append(out, fn)
+		}
+	}
+	return out
+}
+
+// lateClosureCaptures: a function literal that runs later (defer, go) is created inside a loop and captures
+// a variable cell that lives across iterations and is re-assigned by the loop (with the module's language
+// version below 1.22 the range / for variables are such cells): when the closure finally runs it sees the
+// value of the LAST iteration.
+func lateClosureCaptures(fn *ssa.Function) []carriedUse {
+	var out []carriedUse
+	for _, b := range fn.Blocks {
+		for _, in := range b.Instrs {
+			mc, ok := in.(*ssa.MakeClosure)
+			if !ok {
+				continue
+			}
+			late := false
+			for _, r := range *mc.Referrers() {
+				switch y := r.(type) {
+				case *ssa.Defer:
+					late = late || y.Call.Value == ssa.Value(mc)
+				case *ssa.Go:
+					late = late || y.Call.Value == ssa.Value(mc)
+				}
+			}
+			if !late {
+				continue
+			}
+			h := loopHeaderOf(mc)
+			isLoop := false
+			for _, p := range h.Preds {
+				if h.Dominates(p) {
+					isLoop = true
+				}
+			}
+			if !isLoop {
+				continue
+			}
+			for _, bd := range mc.Bindings {
+				al, ok := bd.(*ssa.Alloc)
+				if !ok || (al.Block() != nil && inNaturalLoop(al.Block(), h) && al.Block() != h) {
+					continue // a per-iteration cell
+				}
+				if al.Block() == h {
+					// allocated in the header itself: executed every iteration -> fresh cell
+					continue
+				}
+				for _, r := range *al.Referrers() {
+					if st, ok := r.(*ssa.Store); ok && st.Addr == ssa.Value(al) && inNaturalLoop(st.Block(), h) {
+						out = append(out, carriedUse{Use: mc, Name: al.Comment + "@late-closure"})
+						break
+					}
+				}
+			}
 		}
 	}
 	return out
